@@ -1300,3 +1300,11 @@ pub enum JpegReconstructionStatus {
     /// JPEG bitstream reconstruction data is not found. Result may change with more data.
     NeedMoreData,
 }
+
+#[cfg(jxl_oxide_verif)]
+impl JxlImage {
+    /// Protocol state of every frame's render handle (verification only).
+    pub fn verif_handle_states(&self) -> Vec<&'static str> {
+        self.ctx.verif_handle_states()
+    }
+}
